@@ -3,6 +3,7 @@ C09 — Background work is durable and recurring maintenance never stops.
 Property theorems only; helper lemmas live in `KrillModel.Queue.Lemmas`.
 -/
 import KrillModel.Queue.Lemmas
+import KrillModel.Queue.Wakeup
 import KrillModel.Generated.StartupGuard
 import KrillModel.Generated.SchedulerTasks
 namespace KM.Props.C09
@@ -697,6 +698,92 @@ exists (a lost wake-up: the change would wait for the next unrelated publication
 theorem publication_schedules_after_change :
     KM.Generated.pubdScheduleAfterChange .publish = true ∧
     KM.Generated.pubdScheduleAfterChange .remove_publisher = true := by
+  decide
+
+/-! ## Follow-ups are scheduled after the change, with a method that cannot be swallowed -/
+
+open KM.Queue.Wakeup in
+theorem wakeup_inv_step (s : St) (st : Step) (h : Inv s) : Inv (step ⟨true, true⟩ s st) := by
+  obtain ⟨hr, hs⟩ := h
+  cases st with
+  | first =>
+    simp only [step]
+    split
+    · exact ⟨hr, hs⟩
+    · refine ⟨hr, fun _ => Or.inr (Or.inr (by simp [doStage]))⟩
+  | second =>
+    simp only [step]
+    split
+    · exact ⟨hr, hs⟩
+    · refine ⟨hr, fun _ => Or.inl (by simp [doSchedule])⟩
+  | claim =>
+    simp only [step]
+    split
+    · refine ⟨by simp, fun _ => Or.inr (Or.inl rfl)⟩
+    · exact ⟨hr, hs⟩
+  | process =>
+    simp only [step]
+    split
+    · refine ⟨by simp, fun h => by simp at h⟩
+    · exact ⟨hr, hs⟩
+  | finish =>
+    simp only [step]
+    split
+    · rename_i h2
+      refine ⟨by simp, fun hst => ?_⟩
+      have h2' : s.running = 2 := by simpa using h2
+      rcases hs hst with hp | hr1 | hn
+      · exact Or.inl hp
+      · omega
+      · exact Or.inr (Or.inr hn)
+    · exact ⟨hr, hs⟩
+
+open KM.Queue.Wakeup in
+/-- **No change is left behind.**  With the statement order and the scheduling method of the
+unchanged tree – change first, then `schedule` – for any number of request threads and every
+interleaving with the scheduler: whenever everything has come to rest, nothing is staged. -/
+theorem followup_never_lost (threads : Nat) (steps : List Step)
+    (hq : quiescent (run ⟨true, true⟩ (init threads) steps) = true) :
+    (run ⟨true, true⟩ (init threads) steps).staged = false := by
+  have hinv : ∀ (steps : List Step) (s : St), Inv s → Inv (run ⟨true, true⟩ s steps) := by
+    intro steps
+    induction steps with
+    | nil => intro s h; exact h
+    | cons st rest ih => intro s h; exact ih _ (wakeup_inv_step s st h)
+  have h0 : Inv (init threads) := ⟨by simp [init], fun h => by simp [init] at h⟩
+  have := hinv steps (init threads) h0
+  generalize run ⟨true, true⟩ (init threads) steps = s at *
+  simp only [quiescent, Bool.and_eq_true, beq_iff_eq, Bool.not_eq_true'] at hq
+  obtain ⟨⟨⟨h0', h1⟩, hp⟩, hrun⟩ := hq
+  cases hst : s.staged with
+  | false => rfl
+  | true =>
+    rcases this.2 hst with h | h | h
+    · rw [hp] at h; cases h
+    · omega
+    · omega
+
+open KM.Queue.Wakeup in
+/-- Scheduling first loses the change: the task is claimed, finds nothing and is finished
+before the change is staged (the seeded change C18-r2). -/
+theorem schedule_before_change_loses :
+    let s := run ⟨false, true⟩ (init 1) [.first, .claim, .process, .finish, .second]
+    quiescent s = true ∧ s.staged = true := by decide
+
+open KM.Queue.Wakeup in
+/-- `schedule_missing` loses the change made while the task is running after it has looked
+(the seeded change C09 round 1). -/
+theorem schedule_missing_loses :
+    let s := run ⟨true, false⟩ (init 2) [.first, .second, .claim, .process, .first, .second, .finish]
+    quiescent s = true ∧ s.staged = true := by decide
+
+/-- Tie to the source: the code of `RepositoryManager::publish` and `remove_publisher` is the
+instance `⟨changeFirst := true, guaranteed := true⟩` the theorem is about. -/
+theorem source_publish_is_change_first_guaranteed :
+    KM.Generated.pubdScheduleAfterChange .publish = true ∧
+    scheduled .RrdpUpdateIfNeeded (KM.Generated.pubdMethodTasks .publish) = true ∧
+    KM.Generated.pubdScheduleAfterChange .remove_publisher = true ∧
+    scheduled .RrdpUpdateIfNeeded (KM.Generated.pubdMethodTasks .remove_publisher) = true := by
   decide
 
 /-- The recurring maintenance tasks. -/
